@@ -343,6 +343,14 @@ func TestC14(t *testing.T) {
 				{"bad override for cel authorizer (expression does not compile)", []config.MechanismConfig{{"authenticator": "anon"}, {"authorizer": "realcel", "config": map[string]any{"expressions": []any{map[string]any{"expression": "1 +"}}}}}, nil},
 				{"bad override for cel authorizer (unknown property)", []config.MechanismConfig{{"authenticator": "anon"}, {"authorizer": "realcel", "config": map[string]any{"foo": "bar"}}}, nil},
 				{"bad override for default error handler", []config.MechanismConfig{{"authenticator": "anon"}}, []config.MechanismConfig{{"error_handler": "realdef", "config": map[string]any{"foo": "bar"}}}},
+				{"authenticator step with a config that is not an object (string)", []config.MechanismConfig{{"authenticator": "anon", "config": "nope"}}, nil},
+				{"authenticator step with a config that is not an object (list)", []config.MechanismConfig{{"authenticator": "anon", "config": []any{"a", "b"}}}, nil},
+				{"authenticator step with a config that is not an object (number)", []config.MechanismConfig{{"authenticator": "anon", "config": 42}}, nil},
+				{"authorizer step with a config that is not an object", []config.MechanismConfig{{"authenticator": "anon"}, {"authorizer": "realallow", "config": "nope"}}, nil},
+				{"finalizer step with a config that is not an object", []config.MechanismConfig{{"authenticator": "anon"}, {"finalizer": "noop", "config": []any{1}}}, nil},
+				{"error handler step with a config that is not an object", []config.MechanismConfig{{"authenticator": "anon"}}, []config.MechanismConfig{{"error_handler": "realdef", "config": "nope"}}},
+				{"mechanism reference that is not a string", []config.MechanismConfig{{"authenticator": 7}}, nil},
+				{"authorizer reference that is not a string", []config.MechanismConfig{{"authenticator": "anon"}, {"authorizer": []any{"realallow"}}}, nil},
 				{"unsupported step key", []config.MechanismConfig{{"authenticator": "anon"}, {"frobnicator": "x"}}, nil},
 				{"unsupported on_error key", []config.MechanismConfig{{"authenticator": "anon"}}, []config.MechanismConfig{{"authorizer": "realallow"}}},
 				{"condition that does not compile", []config.MechanismConfig{{"authenticator": "anon"}, {"authorizer": "realallow", "if": "this is not cel ("}}, nil},
